@@ -11,7 +11,7 @@ open RegionsVerif.Gen.InlineGlueC16
 
 def expected : List (String × String × List String) :=
   [("Region.copy", "(self, **changes) => self.__class__(**changes)", ["stmt for field in list(self._params) + ['meta', 'visual']: if field not in changes: changes[field] = copy.deepcopy(getattr(self, field))"]),
-   ("Region.__eq__", "(self, other) => False if not isinstance(other, self.__class__) else False if list(self._params) + ['meta', 'visual'] != list(other._params) + ['meta', 'visual'] else True", ["[not not isinstance(other, self.__class__)] [not list(self._params) + ['meta', 'visual'] != list(other._params) + ['meta', 'visual']] stmt try: for param in list(self._params) + ['meta', 'visual']: self_val = getattr(self, param) other_val = getattr(other, param) if getattr(self_val, 'shape', None) != getattr(other_val, 'shape', None): return False if np.any(self_val != other_val): return False except (TypeError, ValueError): return False"]),
+   ("Region.__eq__", "(self, other) => False if not isinstance(other, self.__class__) else False if list(self._params) + ['meta', 'visual'] != list(other._params) + ['meta', 'visual'] else True", ["[not not isinstance(other, self.__class__)] [not list(self._params) + ['meta', 'visual'] != list(other._params) + ['meta', 'visual']] stmt try: for param in list(self._params) + ['meta', 'visual']: self_val = getattr(self, param) other_val = getattr(other, param) if getattr(self_val, 'shape', ()) != getattr(other_val, 'shape', ()): return False if np.any(self_val != other_val): return False except (TypeError, ValueError): return False"]),
    ("Region.__ne__", "(self, other) => not self == other", []),
    ("PixCoord.__eq__", "(self, other) => (False if np.shape(self.x) != np.shape(other.x) else bool(np.allclose([self.x, self.y], [other.x, other.y]) and np.allclose([other.x, other.y], [self.x, self.y]))) if isinstance(other, self.__class__) else False", []),
    ("Regions.__init__", "(self, regions=(), /) => None", ["stmt for item in list(regions): if not isinstance(item, Region): raise TypeError('Input regions must be a list of Region objects')", "self.regions = list(regions)"]),
